@@ -88,7 +88,7 @@ void SbmlPrinter::bvisit(const Xor &x)
 void SbmlPrinter::bvisit(const Not &x)
 {
     std::ostringstream s;
-    s << "not(" << *x.get_arg() << ")";
+    s << "not(" << apply(*x.get_arg()) << ")";
     str_ = s.str();
 }
 
@@ -115,7 +115,11 @@ void SbmlPrinter::bvisit(const Piecewise &x)
 
 void SbmlPrinter::bvisit(const Infty &x)
 {
-    str_ = "inf";
+    if (x.is_negative_infinity()) {
+        str_ = "-inf";
+    } else {
+        str_ = "inf";
+    }
 }
 
 void SbmlPrinter::bvisit(const Constant &x)
